@@ -330,7 +330,7 @@ def build():
             env.assign("iterator", env.lookup("self").fields["_original_iterator"])
 
     p.add(Contract(
-        PAR, "Parallel.dispatch_one_batch", props=["C01", "C09", "C04"], ghost=D1B_GHOST, setup=d1b_setup,
+        PAR, "Parallel.dispatch_one_batch", props=["C01", "C09", "C04", "C16"], ghost=D1B_GHOST, setup=d1b_setup,
         inline={"_get_batch_size"},
         params=dict(self=parallel(), iterator=iterator_arg),
         requires=["lock_depth() == 0", "self.batch_size >= 1 and self._cached_effective_n_jobs >= 2"],
@@ -379,7 +379,8 @@ def build():
     p.spec_funcs["from_slice"] = lambda interp, b: ops.mk_bool(FROM_SLICE(b.term))
     p.spec_funcs["queue_is_empty"] = lambda interp, me: ops.mk_bool(me.fields["_ready_batches"].head == me.fields["_ready_batches"].tail)
     p.contracts[[k for k in p.contracts if k[1] == "Parallel.dispatch_one_batch"][0]].clause_props = {
-        "the_calling_threads_slice_loop_only_dispatches_its_own_slice": ["C09"]}
+        "the_calling_threads_slice_loop_only_dispatches_its_own_slice": ["C09"],
+        "never_escapes_into_a_callback_thread": ["C04", "C01", "C09"]}
     p.spec_funcs["iterator_raised"] = lambda interp: any(e[0] == "pull" and e[2] == "raised" for e in interp.ctx.events)
 
     # ---- dispatch_next / _start use dispatch_one_batch through its contract (summary: returns a bool, may dispatch one batch)
